@@ -1,4 +1,5 @@
 import MosdnsVerif.Model.Handler
+import MosdnsVerif.Model.C03Udp
 import MosdnsVerif.Model.C06
 import MosdnsVerif.Gen.Facts
 
@@ -370,12 +371,143 @@ theorem udp_size (entry : Ctx → Ctx × Bool) (truncate : Msg → Nat → Msg) 
     simp only [if_true]
     exact hfit _ _ (h512 _)
 
+/-! ### Arrival over UDP: the read loop of `ServeUDP` hands every goroutine its own query
+
+`Model.C03Udp`: one receive buffer, a goroutine per datagram, any interleaving of loop and goroutines.
+With the query unpacked inside the loop (fact `c03UdpUnpackInReadLoop`), at every point of every
+schedule the replies written so far together with the queries held by pending goroutines are exactly
+the well-formed datagrams received so far, each with its sender's address: a reply goes to the address
+whose datagram it was computed from (by `reply_echo` it carries that datagram's ID and question),
+no datagram is handled twice, and once no goroutine is pending every one was handled once. With the
+unpacking left to the goroutine this is false (witness schedule below). -/
+section udp
+open Model.C03Udp
+
+theorem perm_cons_eraseIdx {α : Type} : ∀ (l : List α) (i : Nat) (t : α), l[i]? = some t → l.Perm (t :: l.eraseIdx i)
+  | [], _, _, h => by simp at h
+  | x :: xs, 0, t, h => by
+    simp at h; subst h; exact List.Perm.refl _
+  | x :: xs, i + 1, t, h => by
+    have ih := perm_cons_eraseIdx xs i t (by simpa using h)
+    exact ((List.Perm.cons x ih).trans (List.Perm.swap t x _))
+
+/-- every pending goroutine holds an unpacked message -/
+def AllMsg {M : Type} (ts : List (Job M)) : Prop := ∀ t ∈ ts, ∃ m, t.src = .msg m
+
+theorem received_one {D M : Type} (unpack : D → Option M) (e : Ev D) :
+    received unpack [e] = (arrival unpack e).toList := by
+  unfold received
+  cases h : arrival unpack e <;> simp [h]
+
+theorem pending_snoc {M : Type} (ts : List (Job M)) (a : Nat) (m : M) :
+    pending (ts ++ [⟨a, Src.msg m⟩]) = pending ts ++ [(a, m)] := by
+  simp [pending, List.filterMap_append, held]
+
+theorem step_inv {D M : Type} (unpack : D → Option M) (s : St D M) (rcv : List (Nat × M)) (e : Ev D)
+    (hp : (s.handled ++ pending s.tasks).Perm rcv) (ha : AllMsg s.tasks) :
+    ((step unpack true s e).handled ++ pending (step unpack true s e).tasks).Perm (rcv ++ received unpack [e]) ∧
+    AllMsg (step unpack true s e).tasks := by
+  rw [received_one]
+  cases e with
+  | recv a d =>
+    cases hu : unpack d with
+    | none =>
+      have e1 : step unpack true s (Ev.recv a d) = { s with buf := some d } := by simp [step, hu]
+      have e2 : arrival unpack (Ev.recv a d) = none := by simp [arrival, hu]
+      rw [e1, e2]
+      simpa using And.intro hp ha
+    | some m =>
+      have e1 : step unpack true s (Ev.recv a d) = { s with buf := some d, tasks := s.tasks ++ [⟨a, Src.msg m⟩] } := by
+        simp [step, hu]
+      have e2 : arrival unpack (Ev.recv a d) = some (a, m) := by simp [arrival, hu]
+      rw [e1, e2]
+      refine ⟨?_, ?_⟩
+      · show (s.handled ++ pending (s.tasks ++ [(⟨a, Src.msg m⟩ : Job M)])).Perm (rcv ++ [(a, m)])
+        rw [pending_snoc, ← List.append_assoc]
+        exact List.Perm.append_right _ hp
+      · intro t ht
+        rcases List.mem_append.mp ht with h | h
+        · exact ha t h
+        · simp at h; subst h; exact ⟨m, rfl⟩
+  | run i =>
+    have e2 : arrival unpack (Ev.run i : Ev D) = none := rfl
+    rw [e2]
+    show _ ∧ _
+    simp only [Option.toList, List.append_nil]
+    cases ht : s.tasks[i]? with
+    | none =>
+      have e1 : step unpack true s (Ev.run i) = s := by simp [step, ht]
+      rw [e1]; exact ⟨hp, ha⟩
+    | some t =>
+      have hmem : t ∈ s.tasks := List.mem_of_getElem? ht
+      obtain ⟨m, hm⟩ := ha t hmem
+      have hall : AllMsg (s.tasks.eraseIdx i) := fun t' h' => ha t' (List.mem_of_mem_eraseIdx h')
+      have e1 : step unpack true s (Ev.run i) =
+          { s with tasks := s.tasks.eraseIdx i, handled := s.handled ++ [(t.addr, m)] } := by simp [step, ht, hm]
+      rw [e1]
+      refine ⟨?_, hall⟩
+      have h1 : (pending s.tasks).Perm ((t.addr, m) :: pending (s.tasks.eraseIdx i)) := by
+        have := (perm_cons_eraseIdx s.tasks i t ht).filterMap (held (M := M))
+        simpa [pending, held, hm] using this
+      have h2 : ((s.handled ++ [(t.addr, m)]) ++ pending (s.tasks.eraseIdx i)).Perm (s.handled ++ pending s.tasks) := by
+        rw [List.append_assoc]
+        exact List.Perm.append_left _ h1.symm
+      exact h2.trans hp
+
+theorem foldl_inv {D M : Type} (unpack : D → Option M) (evs : List (Ev D)) :
+    ∀ (s : St D M) (rcv : List (Nat × M)), (s.handled ++ pending s.tasks).Perm rcv → AllMsg s.tasks →
+      (((evs.foldl (step unpack true) s).handled ++ pending (evs.foldl (step unpack true) s).tasks).Perm
+          (rcv ++ received unpack evs) ∧ AllMsg (evs.foldl (step unpack true) s).tasks) := by
+  induction evs with
+  | nil => intro s rcv hp ha; simpa [received] using And.intro hp ha
+  | cons e es ih =>
+    intro s rcv hp ha
+    obtain ⟨hp', ha'⟩ := step_inv unpack s rcv e hp ha
+    have := ih (step unpack true s e) (rcv ++ received unpack [e]) hp' ha'
+    have hr : rcv ++ received unpack [e] ++ received unpack es = rcv ++ received unpack (e :: es) := by
+      rw [List.append_assoc]
+      show rcv ++ (List.filterMap (arrival unpack) [e] ++ List.filterMap (arrival unpack) es) = rcv ++ List.filterMap (arrival unpack) ([e] ++ es)
+      rw [List.filterMap_append]
+    rw [hr] at this
+    simpa [List.foldl_cons] using this
+
+/-- The accounting invariant of the UDP read loop, for every schedule. -/
+theorem udp_loop_accounting {D M : Type} (unpack : D → Option M) (evs : List (Ev D)) :
+    ((run unpack true evs).handled ++ pending (run unpack true evs).tasks).Perm (received unpack evs) := by
+  have := (foldl_inv unpack evs ({} : St D M) [] (by simp [pending]) (by intro t h; cases h)).1
+  simpa [run] using this
+
+/-- A reply is written to an address only for a query that arrived from that address. -/
+theorem udp_loop_own_query {D M : Type} (unpack : D → Option M) (evs : List (Ev D)) (a : Nat) (m : M)
+    (h : (a, m) ∈ (run unpack true evs).handled) : (a, m) ∈ received unpack evs :=
+  (udp_loop_accounting unpack evs).subset (List.mem_append_left _ h)
+
+/-- Once no goroutine is pending, every well-formed datagram was handled exactly once, for its sender. -/
+theorem udp_loop_all_once {D M : Type} (unpack : D → Option M) (evs : List (Ev D))
+    (h : (run unpack true evs).tasks = []) : (run unpack true evs).handled.Perm (received unpack evs) := by
+  have := udp_loop_accounting unpack evs
+  rw [h] at this
+  simpa [pending] using this
+
+/-- Unpacking in the goroutine is wrong: two datagrams queue up, both goroutines run after the second read;
+the reply written to address 1 was computed from the datagram of address 2. -/
+def lateSchedule : List (Ev Nat) := [.recv 1 10, .recv 2 20, .run 0, .run 0]
+theorem udp_unpack_in_goroutine_is_wrong :
+    (1, 20) ∈ (run (M := Nat) some false lateSchedule).handled ∧ (1, 20) ∉ received (M := Nat) some lateSchedule ∧
+    (1, 10) ∉ (run (M := Nat) some false lateSchedule).handled := by decide
+
+example : (run (M := Nat) some true lateSchedule).handled = [(1, 10), (2, 20)] := by decide
+example : (run (M := Nat) (fun d => if d < 15 then none else some d) true lateSchedule).handled = [(2, 20)] := by decide
+
+end udp
+
 /-! ### Guards over the regenerated facts -/
 theorem facts_guard :
     Gen.Facts.c03ValidityCheck = some true ∧ Gen.Facts.c03ServfailRefusedFromQuery = some true ∧
     Gen.Facts.c03RaForced = some true ∧ Gen.Facts.c03OptThenTruncateThenPack = some true ∧
     Gen.Facts.c03UdpSizeMin512 = some true ∧ Gen.Facts.c03CacheHitIdRewritten = some true ∧
-    Gen.Facts.c03RedirectRestores = some true ∧ Gen.Facts.c03LocalAnswersUseSetReply = some true := by decide
+    Gen.Facts.c03RedirectRestores = some true ∧ Gen.Facts.c03LocalAnswersUseSetReply = some true ∧
+    Gen.Facts.c03UdpUnpackInReadLoop = some true := by decide
 
 /-! ### Non-vacuity: a valid query through redirect + local answer -/
 def qx : Question := ⟨[119, 119, 119], 1, 1⟩
